@@ -761,6 +761,80 @@ func briefCalls(cs []*h.BCall) []string {
 	return out
 }
 
+// ---- part D ---------------------------------------------------------------
+
+// c16D: a batch update (leave one, seat one) on a full table is one step: concurrent reservations can never slip in
+// between its two halves. Pure stress on the smallest table where the gap would matter.
+func c16D(c *h.Ctx) {
+	r := c.R
+	seats := 2 + r.Intn(3)
+	opts := pt.NewTableEngineOptions()
+	te := pt.NewTableEngine(opts, pt.WithGameBackend(pt.NewNativeGameBackend()))
+	setting := pt.TableSetting{TableID: "T", Meta: pt.TableMeta{CompetitionID: "C", Rule: "default", Mode: "ct", MaxDuration: 1 << 30, TableMaxSeatCount: seats, TableMinPlayerCount: 2, ActionTime: 10}, Blind: pt.TableBlindState{Level: 1, SB: 5, BB: 10}}
+	if _, err := te.CreateTable(setting); err != nil {
+		c.Inconclusive(err.Error())
+		return
+	}
+	occ := make([]string, seats)
+	for i := 0; i < seats; i++ {
+		occ[i] = fmt.Sprintf("s%d", i)
+		if err := te.PlayerReserve(pt.JoinPlayer{PlayerID: occ[i], RedeemChips: 10, Seat: i}); err != nil {
+			c.Inconclusive(err.Error())
+			return
+		}
+	}
+	const rounds = 1500
+	const intruders = 5
+	for n := 0; n < rounds; n++ {
+		seat := n % seats
+		x := occ[seat]
+		y := fmt.Sprintf("y%d", n)
+		var wg sync.WaitGroup
+		start := make(chan struct{})
+		var uerr error
+		zerr := make([]error, intruders)
+		wg.Add(1)
+		go func() {
+			defer wg.Done()
+			<-start
+			_, uerr = te.UpdateTablePlayers([]pt.JoinPlayer{{PlayerID: y, RedeemChips: 10, Seat: -1}}, []string{x})
+		}()
+		for k := 0; k < intruders; k++ {
+			wg.Add(1)
+			go func(k int) {
+				defer wg.Done()
+				<-start
+				zerr[k] = te.PlayerReserve(pt.JoinPlayer{PlayerID: fmt.Sprintf("z%d_%d", n, k), RedeemChips: 10, Seat: -1})
+			}(k)
+		}
+		close(start)
+		wg.Wait()
+		w := map[string]interface{}{"seats": seats, "round": n, "leaving": x, "joining": y}
+		t := te.GetTable()
+		for k := range zerr {
+			if zerr[k] == nil {
+				c.Violate("C16/batch-update-not-atomic", fmt.Sprintf("round %d: the table was full; a batch update replaced %s by %s and at the same time an outside reservation succeeded: it slipped in between the leave and the join of the batch (update returned %v)", n, x, y, uerr), w)
+				return
+			}
+		}
+		if uerr != nil {
+			c.Violate("C16/batch-update-not-atomic", fmt.Sprintf("round %d: replacing %s by %s on a full table failed with %v although no other call could change the membership", n, x, y, uerr), w)
+			return
+		}
+		pi := t.FindPlayerIdx(y)
+		if pi < 0 || len(t.State.PlayerStates) != seats {
+			c.Violate("C16/batch-update-lost-player", fmt.Sprintf("round %d: after the update %s is seated=%v and the table has %d players on %d seats", n, y, pi >= 0, len(t.State.PlayerStates), seats), w)
+			return
+		}
+		occ[t.State.PlayerStates[pi].Seat] = y
+	}
+	c.Count("D_rounds", rounds)
+	c.Feature("D:batch-atomicity")
+	c.Nontrivial()
+	c.FP("D", c.Seed)
+	c.Sample(map[string]interface{}{"part": "D", "seats": seats, "rounds": rounds, "concurrent_reservations_per_round": intruders})
+}
+
 // ---- race classification --------------------------------------------------
 
 var teLocked = []string{"UpdateTablePlayers", "PlayerReserve", "PlayersLeave", "PlayerReady", "PlayerPay", "PlayerBet", "PlayerRaise", "PlayerCall", "PlayerAllin", "PlayerCheck", "PlayerFold", "PlayerPass", "tableGameOpen", "updateCurrentPlayerGameStatistics"}
@@ -804,7 +878,7 @@ func init() {
 		ID:        "C16",
 		Level:     "exploration",
 		Technique: "runtime monitoring under the Go race detector: concurrent membership / seat-manager / game-action storms against the real code; recorded call histories checked for linearizability with porcupine against a sequential seat table, backend call chain checked for forks, race reports classified by whether both access stacks lie in sections serialised by the same lock",
-		Rule: "case i: i mod 3 = 0 -> part A (8..40 concurrent PlayerReserve fixed/random/re-buy, PlayersLeave, single-kind UpdateTablePlayers on one table, few hot seats), 1 -> part B (8..40 concurrent seat-manager mutators), 2 -> part C (one hand in which at every turn all participants fire fold/call/check/allin/raise/pass at once and the current player three legal actions); " +
+		Rule: "case i: i mod 3 = 0 -> part A (8..40 concurrent PlayerReserve fixed/random/re-buy, PlayersLeave, single-kind UpdateTablePlayers on one table, few hot seats), 1 -> part B (8..40 concurrent seat-manager mutators), 2 -> part C, except every twelfth case -> part D (1500 rounds on a full 2..4-seat table: one batch update replacing a player while five outside reservations hammer; none may ever succeed and the update may never fail); part C (one hand in which at every turn all participants fire fold/call/check/allin/raise/pass at once and the current player three legal actions); " +
 			"non-trivial = the storm had overlapping calls (A: at least one pair of calls overlapping in time); distinct = fingerprint of the recorded history",
 		Assumptions: []string{
 			"linearizability is judged on histories of at most 40 operations; a checker timeout is inconclusive",
@@ -814,12 +888,16 @@ func init() {
 		Cases:         func(tier string) int { return map[string]int{"quick": 600, "thorough": 12000}[tier] },
 		MinNontrivial: func(tier string) int { return map[string]int{"quick": 300, "thorough": 6000}[tier] },
 		RequiredFeatures: func(string) []string {
-			return []string{"A:storm", "B:storm", "C:simultaneous-actions"}
+			return []string{"A:storm", "B:storm", "C:simultaneous-actions", "D:batch-atomicity"}
 		},
 		CaseTimeout:  120e9,
 		Race:         true,
 		RaceClassify: c16RaceClassify,
 		Run: func(c *h.Ctx) {
+			if c.Case%12 == 11 {
+				c16D(c)
+				return
+			}
 			switch c.Case % 3 {
 			case 0:
 				c16A(c)
